@@ -92,6 +92,12 @@ func runFlowCase(c *vf.Ctx, fc *flowCase) *flowResult {
 			s.LenChoices = []int{2, 3} // file skeletons: several forks each
 		}
 		s.Rules = append(s.Rules, fc.Rules...)
+		if fc.Template == 4 && fc.SlowOne > 0 {
+			// skeleton 3: the later-declared outer preflight and the inner
+			// pipeline's own preflight outlast everything else
+			s.Rules = append(s.Rules, pgen.Rule{JobPrefix: "TOP/PRE_B/", DelayAfterMs: fc.SlowOne + 400},
+				pgen.Rule{JobPrefix: "TOP/INNER/PRE_IN/", DelayAfterMs: fc.SlowOne + 400})
+		}
 		if fc.SlowOne > 0 {
 			if paths := vmon.StageCallPaths(p); len(paths) > 0 {
 				ks := paths
